@@ -205,6 +205,8 @@ UIF = "jax2onnx/user_interface.py"
 multi("c18-session-cache-dict", "C18", "mutant", [(UIF, "def _run_allclose(\n", "_SESSION_CACHE: Dict[str, Any] = {}\n\n\ndef _run_allclose(\n"), (UIF, "    session = ort.InferenceSession(\n        model_path,\n        sess_options=sess_options,\n        providers=[\"CPUExecutionProvider\"],\n    )\n\n    # Prepare ORT inputs", "    if model_path not in _SESSION_CACHE:\n        _SESSION_CACHE[model_path] = ort.InferenceSession(\n            model_path,\n            sess_options=sess_options,\n            providers=[\"CPUExecutionProvider\"],\n        )\n    session = _SESSION_CACHE[model_path]\n\n    # Prepare ORT inputs")], expect="R-C18e")
 multi("c18-session-lru-cache-helper", "C18", "mutant", [(UIF, "def _run_allclose(\n", "@functools.lru_cache(maxsize=4)\ndef _cached_session(model_path: str, mtime: float) -> Any:\n    ort = cast(Any, importlib.import_module(\"onnxruntime\"))\n    return ort.InferenceSession(model_path, providers=[\"CPUExecutionProvider\"])\n\n\ndef _run_allclose(\n"), (UIF, "    session = ort.InferenceSession(\n        model_path,\n        sess_options=sess_options,\n        providers=[\"CPUExecutionProvider\"],\n    )\n\n    # Prepare ORT inputs", "    session = _cached_session(model_path, os.path.getmtime(model_path))\n\n    # Prepare ORT inputs"), (UIF, "import importlib\n", "import functools\nimport importlib\n")], expect="R-C18e")
 multi("c18-benign-session-builder-helper", "C18", "benign", [(UIF, "def _run_allclose(\n", "def _new_session(model_path: str, sess_options: Any) -> Any:\n    ort = cast(Any, importlib.import_module(\"onnxruntime\"))\n    return ort.InferenceSession(model_path, sess_options=sess_options, providers=[\"CPUExecutionProvider\"])\n\n\ndef _run_allclose(\n"), (UIF, "    session = ort.InferenceSession(\n        model_path,\n        sess_options=sess_options,\n        providers=[\"CPUExecutionProvider\"],\n    )\n\n    # Prepare ORT inputs", "    session = _new_session(model_path, sess_options)\n\n    # Prepare ORT inputs")])
+mutant("c18-hand-rolled-nan-blind-comparison", "C18", UIF, "            if not np.allclose(\n                expected_arr,\n                got_cmp,\n                rtol=rtol,\n                atol=atol,\n                equal_nan=True,\n            ):\n                diff = np.abs(expected_arr - got_arr)\n                max_diff = float(diff.max()) if diff.size else 0.0", "            with np.errstate(invalid=\"ignore\", over=\"ignore\"):\n                diff = np.abs(expected_arr - got_cmp)\n                exceeded = diff > atol + rtol * np.abs(got_cmp)\n            if exceeded.any():\n                max_diff = float(diff[exceeded].max())", expect="value-comparison")
+benign("c18-benign-hand-rolled-strict-comparison", "C18", UIF, "            if not np.allclose(\n                expected_arr,\n                got_cmp,\n                rtol=rtol,\n                atol=atol,\n                equal_nan=True,\n            ):\n                diff = np.abs(expected_arr - got_arr)\n                max_diff = float(diff.max()) if diff.size else 0.0", "            diff = np.abs(expected_arr - got_cmp)\n            within = diff <= atol + rtol * np.abs(got_cmp)\n            if not within.all():\n                max_diff = float(diff.max()) if diff.size else 0.0")
 mutant("c18-revert-narrowing-cast", "C18", UIF, "            got_cmp = got_arr\n            if _is_floating_dtype(expected_arr) and _is_floating_dtype(got_arr):\n                got_cmp = got_arr.astype(expected_arr.dtype, copy=False)", "            got_cmp = got_arr.astype(expected_arr.dtype, copy=False)", expect="R-C18b")
 mutant("c18-int-branch-cast-to-reference", "C18", UIF, "            if not np.array_equal(expected_arr, got_arr):", "            if not np.array_equal(expected_arr, got_arr.astype(expected_arr.dtype)):", expect="R-C18b")
 mutant("c18-shape-check-removed", "C18", UIF, "        if expected_arr.shape != got_arr.shape:\n            return (\n                False,", "        if False:\n            return (\n                False,", expect="shape-comparison")
